@@ -276,13 +276,13 @@ def run(run):
     rng = run.rng('c11')
     plan = []
     for pv in versions:
-        for k in range(4 if thorough else 1):
+        for k in range(8 if thorough else 1):
             plan.append((pv, rng.choice((1, 5, 30, 60)), False))
-    for _ in range(120 if thorough else 24):
+    for _ in range(400 if thorough else 24):
         plan.append((rng.choice(versions), rng.choice((120, 320, 600)),
                      False))
     if thorough:
-        for _ in range(200):
+        for _ in range(600):
             plan.append((rng.choice(versions), rng.choice((3, 10, 40)), True))
     else:
         for _ in range(16):
